@@ -494,7 +494,45 @@ def user_class(shape, mask):
             body["covariance"] = lambda self, r: self.var * np.exp(-(np.abs(r) / self.len_rescaled))
         if mask[3]:
             body["variogram"] = lambda self, r: self.var * (1.0 - np.exp(-(np.abs(r) / self.len_rescaled))) + self.nugget
+    if shape in (2, 3):
+        # hole-effect shapes (negative lobes), bodies = C03_Model.user_from_cor cor_wave / (cor_dampcos a)
+        if shape == 2:
+            def base(self, h):
+                h = np.asarray(h, dtype=np.double)
+                hh = np.where(h == 0, 1.0, h)
+                return np.where(h == 0, 1.0, np.sin(hh) / hh)
+            body = dict(fix_dim=lambda self: 3)                       # sin(h)/h is a valid model in 3D: fixed dimension
+        else:
+            def base(self, h):
+                h = np.asarray(h, dtype=np.double)
+                return np.exp(-(self.damp * h)) * np.cos(h)
+            body = dict(default_opt_arg=lambda self: {"damp": 1.0}, default_opt_arg_bounds=lambda self: {"damp": [0.5, 10.0]})
+        if mask[0]:
+            body["cor"] = base
+        if mask[1]:
+            body["correlation"] = lambda self, r: base(self, np.abs(r) / self.len_rescaled)
+        if mask[2]:
+            body["covariance"] = lambda self, r: self.var * base(self, np.abs(r) / self.len_rescaled)
+        if mask[3]:
+            body["variogram"] = lambda self, r: self.var * (1.0 - base(self, np.abs(r) / self.len_rescaled)) + self.nugget
     return type("User%d_%s" % (shape, "".join(str(int(b)) for b in mask)), (CovModel,), body)
+
+
+def user_make(shape, mask, dim, var, ls, nug, resc, damp=1.3):
+    cls = user_class(shape, mask)
+    kw = dict(damp=damp) if shape == 3 else {}
+    return cls(dim=3 if shape == 2 else dim, var=var, len_scale=ls, nugget=nug, rescale=resc, **kw)
+
+
+def user_ref(shape, xs, damp=1.3):
+    xs = np.asarray(xs, dtype=float)
+    if shape == 0:
+        return np.exp(-(xs ** 2))
+    if shape == 1:
+        return np.exp(-xs)
+    if shape == 2:
+        return np.where(xs == 0, 1.0, np.sin(np.where(xs == 0, 1.0, xs)) / np.where(xs == 0, 1.0, xs))
+    return np.exp(-(damp * xs)) * np.cos(xs)
 
 
 FNAMES = ["cor", "correlation", "covariance", "variogram"]
@@ -502,7 +540,8 @@ FNAMES = ["cor", "correlation", "covariance", "variogram"]
 
 def derive_correspondence(ctx, rng, drv, state):
     n = 0
-    for shape in (0, 1):
+    damp = 1.3
+    for shape in (0, 1, 2, 3):
         for mask in itertools.product([False, True], repeat=4):
             try:
                 cls = user_class(shape, mask)
@@ -511,11 +550,14 @@ def derive_correspondence(ctx, rng, drv, state):
                 cls, err = None, "TypeError"
             for bp in [(1.0, 1.0, 0.0, 1.0), (2.5, 3.7, 0.4, 1.7), (float(np.exp(rng.uniform(-2, 2))), float(np.exp(rng.uniform(-2, 2))), float(np.exp(rng.uniform(-3, 0))), float(np.exp(rng.uniform(-1, 1))))]:
                 var, ls, nug, resc = bp
-                m = cls(dim=2, var=var, len_scale=ls, nugget=nug, rescale=resc) if cls else None
+                m = user_make(shape, mask, 2, var, ls, nug, resc, damp) if cls else None
                 lr = ls / resc
                 for fi, fname in enumerate(FNAMES):
-                    for x in (0.0, 0.3 * lr if fi else 0.3, 1.0, 2.9, -0.8):
-                        got = drv.call("derive_user", ("z", shape), *[bool(b) for b in mask], var, nug, lr, ("z", fi), float(x))
+                    # (4.5 and 2.2 normalised: negative lobes of the hole-effect shapes)
+                    for x in (0.0, 0.3 * lr if fi else 0.3, 1.0, 2.9, -0.8, 4.5 * lr if fi else 4.5, 2.2 * lr if fi else 2.2):
+                        if x < 0 and fi == 0 and shape >= 2:
+                            continue        # cor is only called with h >= 0
+                        got = drv.call("derive_user", ("z", shape), damp, *[bool(b) for b in mask], var, nug, lr, ("z", fi), float(x))
                         n += 1
                         ctx.count(("derive", shape, mask, bp, fname, x) if any(mask) else None, hist=dict(stage="derive", defined=sum(mask)))
                         if cls is None:
@@ -1152,12 +1194,13 @@ def C_close_vec(a, b, scale):
 
 def probe_user_subclasses(ctx, rng):
     """user classes through each non-empty subset of cor / correlation / covariance / variogram give the same four functions"""
-    xs = np.array([0.0, 1e-9, 0.05, 0.3, 1.0, 2.9, 7.0, 40.0])
-    for shape in (0, 1):
+    xs = np.array([0.0, 1e-9, 0.05, 0.3, 1.0, 2.2, 2.9, 4.5, 7.0, 40.0])
+    for shape in (0, 1, 2, 3):
         for bp in base_params(rng, ctx.tier):
             var, ls, nug, resc = bp[0], bp[1], bp[2], (1.0 if bp[3] is None else bp[3])
             lr = ls / resc
-            ref_c = np.exp(-(xs ** 2)) if shape == 0 else np.exp(-xs)
+            damp = float(rng.uniform(0.5, 3.0))
+            ref_c = user_ref(shape, xs, damp)
             for mask in itertools.product([False, True], repeat=4):
                 if not any(mask):
                     try:
@@ -1167,12 +1210,18 @@ def probe_user_subclasses(ctx, rng):
                         pass
                     continue
                 try:
-                    m = user_class(shape, mask)(dim=1, var=var, len_scale=ls, nugget=nug, rescale=resc)
+                    m = user_make(shape, mask, 1, var, ls, nug, resc, damp)
                     got = dict(cor=m.cor(xs), correlation=m.correlation(xs * lr), covariance=m.covariance(xs * lr), variogram=m.variogram(xs * lr))
                 except Exception as e:
                     viol(ctx, "user subclass", "user class raised %r" % e, dict(shape=shape, mask=mask, bp=bp), "user:exception")
                     continue
                 want = dict(cor=ref_c, correlation=ref_c, covariance=var * ref_c, variogram=var * (1 - ref_c) + nug)
+                # mutual consistency of what the object returns, whatever the shape
+                gc, gk, gv = (np.asarray(got[k], dtype=float) for k in ("correlation", "covariance", "variogram"))
+                if not ((np.abs(gv - (var + nug - gk)) <= 1e-12 * (var + nug)).all() and (np.abs(gk - var * gc) <= 1e-12 * (var + nug) * max(1.0, (var + nug) / var)).all()):
+                    i = int(np.argmax(np.abs(gv - (var + nug - gk)) + np.abs(gk - var * gc)))
+                    viol(ctx, "user subclass", "user class defined through %s: variogram = var + nugget - covariance / covariance = var * correlation violated" % ([f for f, b in zip(FNAMES, mask) if b],),
+                         dict(shape=shape, mask=mask, bp=bp, damp=damp, x=float(xs[i]), correlation=float(gc[i]), covariance=float(gk[i]), variogram=float(gv[i])), "user:identities")
                 ctx.count(("user", shape, mask, bp), n=4 * len(xs), hist=dict(stage="probe:user-subclass", defined=sum(mask)))
                 for k in FNAMES:
                     sc = 1.0 if k in ("cor", "correlation") else var + nug
@@ -1181,7 +1230,7 @@ def probe_user_subclasses(ctx, rng):
                     if not (np.abs(np.asarray(got[k], dtype=float) - want[k]) <= tol).all():
                         i = int(np.argmax(np.abs(np.asarray(got[k], dtype=float) - want[k])))
                         viol(ctx, "user subclass", "%s of a user class defined through %s differs from the canonical function" % (k, [f for f, b in zip(FNAMES, mask) if b]),
-                             dict(shape=shape, mask=mask, bp=bp, x=float(xs[i]), got=float(np.asarray(got[k])[i]), want=float(want[k][i])), "user:%s" % k)
+                             dict(shape=shape, mask=mask, bp=bp, damp=damp, x=float(xs[i]), got=float(np.asarray(got[k])[i]), want=float(want[k][i])), "user:%s" % k)
 
 
 def exact_integral(name, opt, dim, mp, doc_cor=None):
@@ -1417,6 +1466,29 @@ def probe_variants(ctx, rng):
         except Exception as e:
             viol(ctx, "yadrenko", "lat-lon model raised %r" % e, dict(cls=name), "%s:latlon-exception" % name)
             continue
+        # whole range of great-circle distances [0, pi R] and slightly beyond, long-range model (len_scale ~ R):
+        # f_yadrenko(zeta) = f(2 R sin(zeta / 2R))
+        for geo_k in (1.0, 6371.0, geo):
+            try:
+                mk = getattr(gs, name)(latlon=True, geo_scale=geo_k, var=1.3, len_scale=float(rng.uniform(0.7, 1.5)) * geo_k, nugget=0.2, **opt)
+            except Exception as e:
+                viol(ctx, "yadrenko", "lat-lon model raised %r" % e, dict(cls=name, geo_scale=geo_k), "%s:latlon-exception" % name)
+                continue
+            zs = np.concatenate([np.linspace(0.0, np.pi, 13), [1.9, 2.0, 2.1, 3.0, np.pi * 1.02]]) * geo_k
+            ch = 2.0 * geo_k * np.sin(zs / (2.0 * geo_k))
+            for tag, fy, iso, sc in (("cor", mk.cor_yadrenko, mk.correlation, 1.0), ("cov", mk.cov_yadrenko, mk.covariance, 1.5), ("vario", mk.vario_yadrenko, mk.variogram, 1.5)):
+                with np.errstate(all="ignore"):
+                    a, b = np.asarray(fy(zs), dtype=float), np.asarray(iso(ch), dtype=float)
+                ctx.count(("variant-yadrenko-range", name, tag, geo_k), n=len(zs), hist=dict(stage="probe:variants", cls=name, dim=3))
+                fin = np.isfinite(a) & np.isfinite(b)
+                # same formula for the lag up to rounding of zeta / 2R: |f'| * ulp
+                if not (np.abs(a - b)[fin] <= 1e-9 * sc).all():
+                    i = int(np.argmax(np.where(fin, np.abs(a - b), 0)))
+                    viol(ctx, "yadrenko variant", "%s: %s_yadrenko(zeta=%g) = %r but %s(2R sin(zeta/2R) = %g) = %r (geo_scale %g, zeta/R = %.4g rad)"
+                         % (name, tag, zs[i], float(a[i]), tag, ch[i], float(b[i]), geo_k, zs[i] / geo_k),
+                         dict(cls=name, opt=opt, geo_scale=geo_k, len_scale=float(mk.len_scale), zeta=float(zs[i]), chord=float(ch[i]), got=float(a[i]), want=float(b[i])),
+                         "%s:yadrenko-variant" % name)
+                    break
         p1 = np.array([rng.uniform(-80, 80), rng.uniform(-180, 180)])
         p2 = np.array([rng.uniform(-80, 80), rng.uniform(-180, 180)])
         x1, x2 = m.isometrize(p1)[:, 0], m.isometrize(p2)[:, 0]
